@@ -1,12 +1,14 @@
-\* exhaustive + emission (thorough): cores of height 6, minimum sizes 1..4 half units
-CONSTANTS HC = 6  Mins = {1, 2, 3, 4}
+\* exhaustive + emission (thorough): averaged cores of height 6, minimum sizes 1..4 half units
+CONSTANTS HC = 6  Mins = {1, 2, 3, 4}  Families = {"avg"}
 INIT Init
 NEXT Next
+INVARIANT AtMostTwoRows
 INVARIANT StrictlyIncreasing
 INVARIANT OnlyCandidates
 INVARIANT NoThinCells
 INVARIANT KeepsAnchors
 INVARIANT ExtremeFuelAnchored
+INVARIANT IsolatedBoundaryKept
 INVARIANT BoundariesKeptOrCrowded
 INVARIANT FailsOnlyOnCloseAnchors
 INVARIANT TopKept
